@@ -7,6 +7,7 @@
 import TdVerif.Lemmas.C08IdxBounds
 import TdVerif.Lemmas.C08Out2
 import TdVerif.Lemmas.C08Mask
+import TdVerif.Lemmas.C08View
 namespace TdVerif.C08
 
 theorem idxCoord_pre_length : ∀ (pre : List Ix) (S : Shape) (c : List Nat), BasicPre pre →
@@ -421,5 +422,443 @@ theorem get_mask1_structure [Inhabited α] (Li : Lazy α) (pre post : List Ix) (
       right
       simp only [Option.some.injEq] at hr
       exact ⟨by simp, hr.symm⟩
+
+end TdVerif.C08
+
+namespace TdVerif.C08
+
+theorem at0_insertIdx_lt (b : Shape) (sd n i : Nat) (h : i < sd) (hsd : sd ≤ b.length) :
+    at0 (b.insertIdx sd n) i = at0 b i := by
+  simp only [at0]
+  rw [List.getElem?_insertIdx_of_lt h]
+
+theorem span_unroll [Inhabited α] (L : Lazy α) (b : Shape) (keys : List String) (feat : String → Shape)
+    (hU : Uniform L b keys feat) (hne0 : L.members ≠ [])
+    (pre post : List Ix) (m : T Bool)
+    (hpre : BasicPre pre) (hpd : preDims pre + 1 = L.sd) (hpost : ∀ it ∈ post, it ≠ Ix.ell)
+    (hm : m.shape = [at0 b (preDims pre), L.members.length])
+    (r : LRes α) (hr : lazyGetCoreM L (pre ++ .mask m :: post) = some r) :
+    ∃ rs : List (LRes α), rs.length = at0 b (preDims pre) ∧ catResults rs (outRank pre) = some r ∧
+      ∀ i (hi : i < rs.length), ∃ Li, lazyGetCore L (List.replicate (preDims pre) Ix.full ++ [.int (i : Int)]) = some (.lazy Li) ∧
+        lazyGetCore Li (pre ++ .mask (m.select 0 i) :: post) = some rs[i] := by
+  have hLB : L.batch = b.insertIdx L.sd L.members.length := absL_batch_eq L b keys feat hU hne0
+  have hnmd : at0 L.batch (preDims pre) = at0 b (preDims pre) := by
+    rw [hLB]; exact at0_insertIdx_lt b L.sd _ _ (by omega) hU.hsd
+  obtain ⟨st', hloop, hout, hhb, hml, hmdim, hsel, hcat⟩ :=
+    splitLoop_pre_mask_span L.sd L.members.length L.batch m (by rw [hm]; rfl) post hpost pre 0 {} hpre
+      (by simp; omega) rfl
+  simp only [List.nil_append, Nat.zero_add] at hout hml
+  have hmaskAt : st'.out[st'.maskLoc]? = some (.mask m) := by rw [hout, hml]; simp
+  have hsd1 : L.sd - 1 = preDims pre := by omega
+  have hids : (st'.sel.ids L.members.length).length = at0 b (preDims pre) := by
+    rw [hsel, hsd1]; simp [Sel.ids]; exact hnmd
+  have hsplit : splitIndex L (pre ++ .mask m :: post) = some st' := by
+    unfold splitIndex
+    simp [hloop, hhb, hmaskAt, hids, hm]
+  have hcat' : (st'.maskLoc : Int) - st'.numSingle = (outRank pre : Int) := by
+    have := hcat; simpa using this
+  unfold lazyGetCoreM at hr
+  simp only [hsplit, hhb, if_true, hmaskAt, hm, List.length_cons, List.length_nil, hcat', hids, hmdim, hsd1] at hr
+  have hneg : ¬ ((outRank pre : Int) < 0) := by omega
+  have hnsd : ¬ preDims pre = L.sd := by omega
+  simp only [hneg, if_false, Nat.reduceAdd, if_true, Int.toNat_natCast, hnsd] at hr
+  have hsub : ∀ i, subMaskIdx st'.out st'.maskLoc m i = pre ++ .mask (m.select 0 i) :: post := by
+    intro i; unfold subMaskIdx; rw [hout, hml, set_append_mid]
+  simp only [hsub] at hr
+  obtain ⟨rs, hrs, hcatr⟩ := Option.bind_eq_some_iff.mp hr
+  obtain ⟨hl, hget⟩ := allSome_map_getElem _ _ _ hrs
+  simp only [List.length_range] at hl hget
+  refine ⟨rs, hl, hcatr, ?_⟩
+  intro i hi
+  have := hget i hi (by omega)
+  simp only [List.getElem_range] at this
+  obtain ⟨r1, hr1, hF⟩ := Option.bind_eq_some_iff.mp this
+  cases r1 with
+  | «lazy» Li => exact ⟨Li, hr1, hF⟩
+  | member _ => simp at hF
+  | lazy2 _ _ => simp at hF
+  | empty _ => simp at hF
+
+
+theorem take_insertIdx_succ (b : Shape) (md n : Nat) (h : md < b.length) :
+    (b.insertIdx (md + 1) n).take md = b.take md := by
+  apply List.ext_getElem?
+  intro i
+  simp only [List.getElem?_take]
+  by_cases hi : i < md
+  · simp [hi, List.getElem?_insertIdx_of_lt (show i < md + 1 by omega)]
+  · simp [hi]
+
+theorem drop_insertIdx_succ (b : Shape) (md n : Nat) (h : md < b.length) :
+    (b.insertIdx (md + 1) n).drop md = at0 b md :: n :: b.drop (md + 1) := by
+  apply List.ext_getElem?
+  intro i
+  rw [List.getElem?_drop, List.getElem?_insertIdx]
+  rcases i with _ | _ | i
+  · simp [at0, List.getElem?_eq_getElem h]
+  · simp
+    omega
+  · have h1 : ¬ md + (i + 1 + 1) < md + 1 := by omega
+    have h2 : ¬ md + (i + 1 + 1) = md + 1 := by omega
+    simp only [h1, h2, if_false, List.getElem?_cons_succ, List.getElem?_drop]
+    congr 1; omega
+
+/-- the shapes behind a read with a rank-2 mask over the dims `(md, md+1)` of a stack with member
+batch size `b`, `n` members and stack dim `md + 1` -/
+theorem span_shapes (b : Shape) (n md : Nat) (hmd : md < b.length) (pre post : List Ix) (m : T Bool)
+    (hpre : BasicPre pre) (hpd : preDims pre = md) (hm : m.shape = [at0 b md, n])
+    (s : Shape) (hs : idxShape (pre ++ .mask m :: post) (b.insertIdx (md + 1) n) = some s) :
+    ∃ ps qs, idxShape pre (b.take md) = some ps ∧ idxShape post (b.drop (md + 1)) = some qs ∧
+      ps.length = outRank pre ∧ s = ps ++ (nonzero m).length :: qs ∧
+      (∀ i, idxShape (pre ++ .mask (m.select 0 i) :: post) ((b.eraseIdx md).insertIdx md n)
+        = some (ps ++ (nonzero (m.select 0 i)).length :: qs)) ∧
+      idxShape (pre ++ post) (b.eraseIdx md) = some (ps ++ qs) := by
+  have hfac := idxShape_pre pre (.mask m :: post) (b.insertIdx (md + 1) n) hpre
+    (by rw [hpd, List.length_insertIdx_of_le_length (by omega)]; omega)
+  rw [hs, hpd, take_insertIdx_succ b md n hmd, drop_insertIdx_succ b md n hmd] at hfac
+  cases hps : idxShape pre (b.take md) with
+  | none => simp [hps] at hfac
+  | some ps =>
+  simp only [hps, Option.bind_some] at hfac
+  have hplen : ps.length = outRank pre :=
+    idxShape_pre_length pre (b.take md) ps hpre (by rw [hpd]; simp; omega) hps
+  simp only [idxShape, hm] at hfac
+  split at hfac
+  case isFalse => simp at hfac
+  simp only [List.length_cons, List.length_nil, Nat.zero_add, Nat.reduceAdd, List.drop_succ_cons,
+    List.drop_zero] at hfac
+  cases hqs : idxShape post (b.drop (md + 1)) with
+  | none => simp [hqs] at hfac
+  | some qs =>
+  simp only [hqs, Option.map_some, Option.some.injEq] at hfac
+  refine ⟨ps, qs, rfl, rfl, hplen, by simpa using hfac, ?_, ?_⟩
+  · intro i
+    have hl : md ≤ (b.eraseIdx md).length := by rw [List.length_eraseIdx_of_lt hmd]; omega
+    rw [idxShape_pre pre _ _ hpre (by rw [hpd, List.length_insertIdx_of_le_length hl]; omega), hpd,
+      take_insertIdx_self _ _ _ hl, drop_insertIdx_self _ _ _ hl, take_eraseIdx_self, drop_eraseIdx_self, hps]
+    simp only [Option.bind_some, idxShape]
+    have hrow : (m.select 0 i).shape = [n] := by simp [T.select, hm]
+    simp [hrow, hqs]
+  · rw [idxShape_pre pre post _ hpre (by rw [hpd, List.length_eraseIdx_of_lt hmd]; omega), hpd,
+      take_eraseIdx_self, drop_eraseIdx_self, hps]
+    simp [hqs]
+
+
+/-- the members a per-row result contributes to the cat -/
+def lazyMembers : LRes α → List (TD α)
+  | .lazy Li => Li.members
+  | _ => []
+
+theorem catResults_lazy (rs : List (LRes α)) (cd : Nat) (r : LRes α) (h : catResults rs cd = some r)
+    (hgood : ∀ x ∈ rs, (∃ Lr, x = .lazy Lr) ∨ (∃ bb, x = .empty bb))
+    (hne : rs.flatMap lazyMembers ≠ []) :
+    r = .lazy ⟨rs.flatMap lazyMembers, cd⟩ := by
+  unfold catResults at h
+  split at h
+  · rename_i hany
+    exfalso
+    obtain ⟨x, hx, hbad⟩ := List.any_eq_true.mp hany
+    rcases hgood x hx with ⟨Lr, rfl⟩ | ⟨bb, rfl⟩ <;> simp at hbad
+  cases rs with
+  | nil => simp at h
+  | cons r0 rest =>
+    simp only at h
+    generalize hg : List.flatMap _ (r0 :: rest) = ms at h
+    have hms : ms = (r0 :: rest).flatMap lazyMembers := by
+      rw [← hg]; congr 1
+    rw [hms] at h
+    cases hmm : (r0 :: rest).flatMap lazyMembers with
+    | nil => exact absurd hmm hne
+    | cons x xs =>
+      rw [hmm] at h
+      simp only [Option.map_eq_some_iff] at h
+      obtain ⟨L', hL', rfl⟩ := h
+      obtain ⟨rfl, _⟩ := lazyStack_some' _ _ _ hL'
+      rfl
+
+/-- **one row of a spanning rank-2 mask**: the lazy stack `L[:, …, :, i]` indexed with row `i` of the
+mask contributes the kept members, each indexed by the other items; stacked along the result
+position of the mask they are the dense slice indexed with that row -/
+theorem span_row [Inhabited α] (L : Lazy α) (b : Shape) (keys : List String) (feat : String → Shape)
+    (hU : Uniform L b keys feat) (hne0 : L.members ≠ []) (pre post : List Ix) (m : T Bool)
+    (hpre : BasicPre pre) (hpd : preDims pre + 1 = L.sd) (hpost : Basic post)
+    (hm : m.shape = [at0 b (preDims pre), L.members.length])
+    (ps qs : Shape) (hplen : ps.length = outRank pre) (i : Nat) (hi : i < at0 b (preDims pre))
+    (hrowshape : idxShape (pre ++ .mask (m.select 0 i) :: post)
+        ((b.eraseIdx (preDims pre)).insertIdx (preDims pre) L.members.length)
+      = some (ps ++ (nonzero (m.select 0 i)).length :: qs))
+    (hso : idxShape (pre ++ post) (b.eraseIdx (preDims pre)) = some (ps ++ qs))
+    (Li : Lazy α) (h1 : lazyGetCore L (List.replicate (preDims pre) Ix.full ++ [.int (i : Int)]) = some (.lazy Li))
+    (ri : LRes α) (h2 : lazyGetCore Li (pre ++ .mask (m.select 0 i) :: post) = some ri) :
+    ((∃ Lr, ri = .lazy Lr) ∨ (∃ bb, ri = .empty bb)) ∧
+    (lazyMembers ri).length = (nonzero (m.select 0 i)).length ∧
+    (∀ x ∈ lazyMembers ri, x.batch = ps ++ qs ∧ x.keys = keys ∧ ∀ k ∈ keys, (x.leaf k).shape = (ps ++ qs) ++ feat k) ∧
+    (lazyMembers ri ≠ [] → ∀ k ∈ keys,
+      T.stack ((lazyMembers ri).map fun x => x.leaf k) (outRank pre)
+        ≈ₜ idxT (pre ++ .mask (m.select 0 i) :: post) (((absL L).leaf k).select (preDims pre) i)) := by
+  have hLB : L.batch = b.insertIdx L.sd L.members.length := absL_batch_eq L b keys feat hU hne0
+  have hmdb : preDims pre < b.length := by have := hU.hsd; omega
+  have hnmd : at0 L.batch (preDims pre) = at0 b (preDims pre) := by
+    rw [hLB]; exact at0_insertIdx_lt b L.sd _ _ (by omega) hU.hsd
+  have hmdL : preDims pre < L.batch.length := by
+    rw [hLB, List.length_insertIdx_of_le_length hU.hsd]; omega
+  -- the first read
+  obtain ⟨Li', hLi', hsdi, hleni, hUi⟩ := get_full_int_structure L b keys feat hU hne0 (preDims pre) i
+    (by omega) hi _ h1
+  obtain rfl : Li = Li' := by injection hLi'
+  obtain ⟨hbi, hki, hleafi⟩ := get_full_int_refines L b keys feat hU hne0 (preDims pre) i hmdL
+    (by rw [hnmd]; exact hi) _ h1
+  have hnei : Li.members ≠ [] := by
+    intro hh; rw [hh] at hleni; exact hne0 (List.length_eq_zero_iff.mp hleni.symm)
+  have hsdi' : Li.sd = preDims pre := by omega
+  have hrow : (m.select 0 i).shape = [Li.members.length] := by simp [T.select, hm, hleni]
+  -- the second read
+  obtain ⟨res, hres, hcase⟩ := get_mask1_structure Li pre post (m.select 0 i) hpre hsdi'.symm
+    (fun it h => (hpost it h).2) hrow ri h2
+  obtain ⟨hresl, hresget⟩ := allSome_map_getElem _ _ _ hres
+  have hcnt : res.length = (nonzero (m.select 0 i)).length := by
+    rw [hresl, nonzero_rank1 _ _ hrow]; simp
+  have hresmem : ∀ x ∈ res, x.batch = ps ++ qs ∧ x.keys = keys ∧ ∀ k ∈ keys, (x.leaf k).shape = (ps ++ qs) ++ feat k := by
+    intro x hx
+    obtain ⟨j, hj, rfl⟩ := List.getElem_of_mem hx
+    have := hresget j hj (by rw [← hresl]; exact hj)
+    obtain ⟨so', hso', hb', hk', hl'⟩ := memberIndex_uniform Li _ keys feat hUi (pre ++ post) _ _ this
+    rw [hso] at hso'
+    obtain rfl := Option.some.inj hso'
+    exact ⟨hb', hk', hl'⟩
+  rcases hcase with ⟨hnil, bb, rfl⟩ | ⟨hnn, rfl⟩
+  · subst hnil
+    refine ⟨Or.inr ⟨bb, rfl⟩, by simpa [lazyMembers] using hcnt, by simp [lazyMembers], by simp [lazyMembers]⟩
+  · refine ⟨Or.inl ⟨_, rfl⟩, by simpa [lazyMembers] using hcnt, by simpa [lazyMembers] using hresmem, ?_⟩
+    intro _ k hk
+    show T.stack (res.map fun x => x.leaf k) (outRank pre) ≈ₜ _
+    -- stage 3 on the sub-stack
+    have hbLi : (absL Li).batch = (b.eraseIdx (preDims pre)).insertIdx (preDims pre) L.members.length := by
+      rw [absL_batch_eq Li _ keys feat hUi hnei, hsdi', hleni]
+    have hdi : (absL Li).index (pre ++ .mask (m.select 0 i) :: post)
+        = some ((absL Li).mapLeaves (ps ++ (nonzero (m.select 0 i)).length :: qs)
+            (idxT (pre ++ .mask (m.select 0 i) :: post))) := by
+      unfold TD.index
+      rw [hbLi, hrowshape]; rfl
+    obtain ⟨hpa, hpne⟩ := basicPre_noAdv pre hpre
+    have hpostadv : post.countP Ix.isAdv = 0 := by
+      simpa [List.countP_eq_zero] using fun it h => (hpost it h).1
+    have hitem := (splitRec_pre_mask (m.select 0 i) post pre Li.sd hpre hsdi'.symm).1
+    have hok := getitem_refines_mask1 Li _ keys feat hUi hnei (pre ++ .mask (m.select 0 i) :: post)
+      (plainM_pre_mask _ (by rw [hrow]; rfl) post pre Li.sd hpre hsdi'.symm)
+      (by
+        intro it hit
+        simp only [List.mem_append, List.mem_cons] at hit
+        rcases hit with h | rfl | h
+        · exact hpne it h
+        · simp
+        · exact (hpost it h).2)
+      (by simp [AtMostOneAdv, List.countP_append, List.countP_cons, hpa, hpostadv, Ix.isAdv])
+      (m.select 0 i) hitem _ h2 _ hdi
+    have hok' : absL (⟨res, outRank pre⟩ : Lazy α) ≈ (absL Li).mapLeaves _ (idxT (pre ++ .mask (m.select 0 i) :: post)) := hok
+    have hkk : k ∈ (absL (⟨res, outRank pre⟩ : Lazy α)).keys := by
+      rw [hok'.2.1]; show k ∈ (absL Li).keys
+      rw [absL_keys Li _ keys feat hUi hnei]; exact hk
+    refine T.Eqv.trans (hok'.2.2 k hkk) ?_
+    show idxT _ ((absL Li).leaf k) ≈ₜ _
+    have hshLi : ((absL Li).leaf k).shape = ((b.eraseIdx (preDims pre)).insertIdx (preDims pre) L.members.length) ++ feat k := by
+      rw [absL_leaf_shape' Li _ keys feat hUi hnei k hk]
+      show (absL Li).batch ++ feat k = _
+      rw [hbLi]
+    exact idxT_congr _ (hleafi k hk) _ (by rw [hshLi]; exact idxShape_append (feat k) _ _ _ hrowshape)
+
+
+theorem eraseIdx_insertIdx_succ (b : Shape) (md n : Nat) (h : md < b.length) :
+    (b.insertIdx (md + 1) n).eraseIdx md = (b.eraseIdx md).insertIdx md n := by
+  have hl : md ≤ (b.eraseIdx md).length := by rw [List.length_eraseIdx_of_lt h]; omega
+  apply List.ext_getElem?
+  intro i
+  have L1 : ((b.insertIdx (md + 1) n).eraseIdx md)[i]? = if i < md then b[i]? else if i = md then some n else b[i]? := by
+    rw [List.getElem?_eraseIdx]
+    by_cases h1 : i < md
+    · rw [if_pos h1, if_pos h1, List.getElem?_insertIdx_of_lt (by omega)]
+    · rw [if_neg h1, if_neg h1, List.getElem?_insertIdx]
+      by_cases h3 : i = md
+      · subst h3; simp; omega
+      · have h4 : ¬ i + 1 < md + 1 := by omega
+        have h5 : ¬ i + 1 = md + 1 := by omega
+        simp [h3, h4, h5]
+  have R1 : ((b.eraseIdx md).insertIdx md n)[i]? = if i < md then b[i]? else if i = md then some n else b[i]? := by
+    rw [List.getElem?_insertIdx]
+    by_cases h1 : i < md
+    · simp [h1, List.getElem?_eraseIdx]
+    · by_cases h3 : i = md
+      · subst h3; simp [hl]
+      · have h6 : ¬ i - 1 < md := by omega
+        have h7 : i - 1 + 1 = i := by omega
+        simp [h1, h3, List.getElem?_eraseIdx, h6, h7]
+  rw [L1, R1]
+
+/-- **Reads with a rank-2 mask spanning the stack dim** (`lazy[pre…, mask2d, post…]`, the mask
+covering the dim before the stack dim and the stack dim itself; ints / slices / None around it):
+what `__getitem__` builds — for every position `i` of the dim the mask starts at, the lazy stack
+`self[(:,)*mask_dim + (i,)]` indexed with row `i` of the mask (a rank-1 mask on ITS stack dim), the
+results concatenated along `mask_loc - num_single` — materialises to the dense index.  (A mask that
+keeps nothing returns an empty stack, which only has a batch size: excluded by `hsome`.) -/
+theorem getitem_refines_mask2_span [Inhabited α] (L : Lazy α) (b : Shape) (keys : List String) (feat : String → Shape)
+    (hU : Uniform L b keys feat) (hne0 : L.members ≠ []) (pre post : List Ix) (m : T Bool)
+    (hpre : BasicPre pre) (hpd : preDims pre + 1 = L.sd) (hpost : Basic post)
+    (hm : m.shape = [at0 b (preDims pre), L.members.length]) (hsome : 0 < (nonzero m).length)
+    (r : LRes α) (hr : lazyGetCoreM L (pre ++ .mask m :: post) = some r)
+    (d : TD α) (hd : (absL L).index (pre ++ .mask m :: post) = some d) :
+    absR r ≈ d := by
+  obtain ⟨md, hmd⟩ : ∃ md, md = preDims pre := ⟨_, rfl⟩
+  have hpostne : ∀ it ∈ post, it ≠ Ix.ell := fun it h => (hpost it h).2
+  have hsd : L.sd = md + 1 := by omega
+  have hmdb : md < b.length := by have := hU.hsd; omega
+  have hB : (absL L).batch = b.insertIdx (md + 1) L.members.length := by
+    rw [absL_batch_eq L b keys feat hU hne0, hsd]
+  -- the dense side
+  simp only [TD.index, Option.map_eq_some_iff] at hd
+  obtain ⟨s, hs, rfl⟩ := hd
+  rw [hB] at hs
+  obtain ⟨ps, qs, hps, hqs, hplen, hs', hrowsh, hso⟩ :=
+    span_shapes b L.members.length md hmdb pre post m hpre hmd.symm (by rw [hmd]; exact hm) s hs
+  rw [hmd] at hrowsh hso
+  -- the lazy side
+  obtain ⟨rs, hrl, hcat, hrows⟩ := span_unroll L b keys feat hU hne0 pre post m hpre hpd hpostne hm r hr
+  have hrowfacts : ∀ i (hi : i < rs.length),
+      ((∃ Lr, rs[i] = .lazy Lr) ∨ (∃ bb, rs[i] = .empty bb)) ∧
+      (lazyMembers rs[i]).length = (nonzero (m.select 0 i)).length ∧
+      (∀ x ∈ lazyMembers rs[i], x.batch = ps ++ qs ∧ x.keys = keys ∧ ∀ k ∈ keys, (x.leaf k).shape = (ps ++ qs) ++ feat k) ∧
+      (lazyMembers rs[i] ≠ [] → ∀ k ∈ keys,
+        T.stack ((lazyMembers rs[i]).map fun x => x.leaf k) (outRank pre)
+          ≈ₜ idxT (pre ++ .mask (m.select 0 i) :: post) (((absL L).leaf k).select (preDims pre) i)) := by
+    intro i hi
+    obtain ⟨Li, h1, h2⟩ := hrows i hi
+    exact span_row L b keys feat hU hne0 pre post m hpre hpd hpost hm ps qs hplen i (by rw [← hrl]; exact hi)
+      (hrowsh i) hso Li h1 rs[i] h2
+  -- how many members each row contributes
+  have hnz : (nonzero m).length = ((List.range rs.length).map fun i => (nonzero (m.select 0 i)).length).sum := by
+    rw [nonzero_rank2 m _ _ hm, length_flatMap_sum, hrl]; simp
+  have hlenrow : ∀ i (hi : i < rs.length), (lazyMembers rs[i]).length = (nonzero (m.select 0 i)).length :=
+    fun i hi => (hrowfacts i hi).2.1
+  have hmslen : (rs.flatMap lazyMembers).length = (nonzero m).length := by
+    rw [hnz, List.length_flatMap]
+    congr 1
+    apply List.ext_getElem
+    · simp
+    · intro i h1 h2
+      simp only [List.length_map] at h1
+      simp [hlenrow i h1]
+  have hmsne : rs.flatMap lazyMembers ≠ [] := by
+    intro hh; rw [hh] at hmslen; simp at hmslen; omega
+  have hr' := catResults_lazy rs (outRank pre) r hcat
+    (by intro x hx; obtain ⟨i, hi, rfl⟩ := List.getElem_of_mem hx; exact (hrowfacts i hi).1) hmsne
+  subst hr'
+  have hmem : ∀ x ∈ rs.flatMap lazyMembers, x.batch = ps ++ qs ∧ x.keys = keys ∧
+      ∀ k ∈ keys, (x.leaf k).shape = (ps ++ qs) ++ feat k := by
+    intro x hx
+    simp only [List.mem_flatMap] at hx
+    obtain ⟨ri, hri, hxr⟩ := hx
+    obtain ⟨i, hi, rfl⟩ := List.getElem_of_mem hri
+    exact (hrowfacts i hi).2.2.1 x hxr
+  have hkeysL : (absL L).keys = keys := absL_keys L b keys feat hU hne0
+  show stackTD (rs.flatMap lazyMembers) (outRank pre) ≈ _
+  refine ⟨?_, ?_, ?_⟩
+  · show ((rs.flatMap lazyMembers).head?.map TD.batch |>.getD []).insertIdx (outRank pre) _ = s
+    rw [head_of_all TD.batch [] (ps ++ qs) _ hmsne (fun x hx => (hmem x hx).1), hmslen, ← hplen,
+      insertIdx_append_mid _ _ _ _ rfl, hs']
+  · show ((rs.flatMap lazyMembers).head?.map TD.keys |>.getD []) = (absL L).keys
+    rw [head_of_all TD.keys [] keys _ hmsne (fun x hx => (hmem x hx).2.1), hkeysL]
+  · intro k hk
+    have hk' : k ∈ keys := by
+      have : (stackTD (rs.flatMap lazyMembers) (outRank pre)).keys = keys :=
+        head_of_all TD.keys [] keys _ hmsne (fun x hx => (hmem x hx).2.1)
+      rw [this] at hk; exact hk
+    show T.stack ((rs.flatMap lazyMembers).map fun x => x.leaf k) (outRank pre) ≈ₜ idxT _ ((absL L).leaf k)
+    obtain ⟨t, ht⟩ : ∃ t, t = (absL L).leaf k := ⟨_, rfl⟩
+    rw [← ht]
+    have htsh : t.shape = b.insertIdx (md + 1) L.members.length ++ feat k := by
+      rw [ht, absL_leaf_shape' L b keys feat hU hne0 k hk']
+      show (absL L).batch ++ feat k = _
+      rw [hB]
+    have htl : md + 1 < t.shape.length := by
+      rw [htsh, List.length_append, List.length_insertIdx_of_le_length (by omega)]; omega
+    have hat : at0 t.shape md = at0 b md := by
+      rw [htsh]; simp only [at0]
+      rw [List.getElem?_append_left (by rw [List.length_insertIdx_of_le_length (by omega)]; omega),
+        List.getElem?_insertIdx_of_lt (by omega)]
+    have hnpos : 0 < at0 b md := by
+      rw [hmd, ← hrl]
+      apply Nat.pos_of_ne_zero
+      intro h0
+      have h00 : (nonzero m).length = 0 := by rw [hnz, h0]; simp
+      omega
+    have hsel : ∀ i, (t.select md i).shape = (b.eraseIdx md).insertIdx md L.members.length ++ feat k := by
+      intro i
+      show t.shape.eraseIdx md = _
+      rw [htsh, List.eraseIdx_append_of_lt_length (by rw [List.length_insertIdx_of_le_length (by omega)]; omega),
+        eraseIdx_insertIdx_succ b md _ hmdb]
+    -- cat of the dense rows = the dense index
+    have key := idx_mask2_any t md pre post m L.members.length htl (by rw [hat]; exact hnpos) hpre hmd.symm
+      (by rw [hat, hmd]; exact hm) (s ++ feat k) (by rw [htsh]; exact idxShape_append (feat k) _ _ _ hs)
+    rw [hat] at key
+    refine T.Eqv.trans ?_ key
+    -- the lazily stacked members = cat of the dense rows
+    rw [List.map_flatMap, flatMap_eq_range, hrl, ← hmd]
+    have hbase : outRank pre < (ps ++ 0 :: (qs ++ feat k)).length := by simp; omega
+    apply stack_pieces_catList (ps ++ 0 :: (qs ++ feat k)) (outRank pre) hbase (List.range (at0 b md))
+      (fun i => idxT (pre ++ .mask (m.select 0 i) :: post) (t.select md i))
+      _ (List.ne_nil_of_length_pos (by simpa using hnpos))
+    · intro i _
+      show (idxT _ (t.select md i)).shape = _
+      rw [idxT_shape, hsel i, idxShape_append (feat k) _ _ _ (by rw [hmd]; exact hrowsh i)]
+      simp only [Option.getD_some]
+      rw [← hplen, List.append_assoc, List.cons_append, set_append_at_len]
+      simp [at0]
+    · intro i hi
+      simp only [List.mem_range] at hi
+      have hi' : i < rs.length := by rw [hrl, ← hmd]; exact hi
+      rw [List.getElem?_eq_getElem hi']
+      simp only [Option.map_some, Option.getD_some, List.length_map]
+      rw [hlenrow i hi', idxT_shape, hsel i, idxShape_append (feat k) _ _ _ (by rw [hmd]; exact hrowsh i)]
+      simp only [Option.getD_some, at0]
+      rw [← hplen, List.append_assoc, List.cons_append, List.getElem?_append_right (Nat.le_refl _)]
+      simp
+    · intro i hi p hp
+      simp only [List.mem_range] at hi
+      have hi' : i < rs.length := by rw [hrl, ← hmd]; exact hi
+      have hfi : ((rs[i]?.map fun x => (lazyMembers x).map fun y => y.leaf k).getD [])
+          = (lazyMembers rs[i]).map fun y => y.leaf k := by
+        rw [List.getElem?_eq_getElem hi']; rfl
+      have hp' : p < ((lazyMembers rs[i]).map fun y => y.leaf k).length := by rw [← hfi]; exact hp
+      have hne' : lazyMembers rs[i] ≠ [] := by
+        intro hh; rw [hh] at hp'; simp at hp'
+      have hstk := (hrowfacts i hi').2.2.2 hne' k hk'
+      rw [← ht, ← hmd] at hstk
+      have hshapes : ∀ y ∈ (lazyMembers rs[i]).map fun y => y.leaf k, y.shape = (ps ++ qs) ++ feat k := by
+        intro y hy
+        simp only [List.mem_map] at hy
+        obtain ⟨x, hx, rfl⟩ := hy
+        exact ((hrowfacts i hi').2.2.1 x hx).2.2 k hk'
+      have hcdle : outRank pre ≤ ((ps ++ qs) ++ feat k).length := by simp; omega
+      have h1 := select_stack _ _ (outRank pre) p hshapes hcdle hp'
+      have hstkshape : (T.stack ((lazyMembers rs[i]).map fun y => y.leaf k) (outRank pre)).shape
+          = ((ps ++ qs) ++ feat k).insertIdx (outRank pre) ((lazyMembers rs[i]).map fun y => y.leaf k).length := by
+        rw [T.stack_shape, head_of_all T.shape [] _ _ (by intro hh; rw [hh] at hp'; simp at hp') hshapes]
+      have h2 := T.select_congr hstk (outRank pre) p
+        (by rw [hstkshape, List.length_insertIdx_of_le_length hcdle]; omega)
+        (by rw [hstkshape, at0_insertIdx_self _ _ _ hcdle]; exact hp')
+      have hget : ((rs[i]?.map fun x => (lazyMembers x).map fun y => y.leaf k).getD [])[p]
+          = ((lazyMembers rs[i]).map fun y => y.leaf k)[p] := by
+        congr 1
+      rw [hget]
+      exact T.Eqv.trans (T.Eqv.symm'' h1) h2
+    · have : (List.range (at0 b md)).map (fun i => at0 (idxT (pre ++ .mask (m.select 0 i) :: post) (t.select md i)).shape (outRank pre))
+          = (List.range (at0 b md)).map fun i => (nonzero (m.select 0 i)).length := by
+        apply List.map_congr_left
+        intro i _
+        rw [idxT_shape, hsel i, idxShape_append (feat k) _ _ _ (by rw [hmd]; exact hrowsh i)]
+        simp only [Option.getD_some, at0]
+        rw [← hplen, List.append_assoc, List.cons_append, List.getElem?_append_right (Nat.le_refl _)]
+        simp
+      rw [this, hmd, ← hrl, ← hnz]
+      exact hsome
 
 end TdVerif.C08
